@@ -30,12 +30,12 @@ type LFile struct {
 	Single map[string]any `json:"single,omitempty"` // one element (schema, response, ...)
 }
 type LCase struct {
-	Allow bool    `json:"allow_external"`
-	Entry int     `json:"entry"` // 0 LoadFromFile/LoadFromURI, 1 LoadFromData, 2 LoadFromDataWithPath
-	Root  string  `json:"root"`
-	Files []LFile `json:"files"`
-	Bytes string  `json:"bytes,omitempty"` // C20 only: raw root bytes (mutated); the store is then not modelled
-	NoModel bool  `json:"outside_model,omitempty"` // path-item references: judged against the specification only
+	Allow   bool    `json:"allow_external"`
+	Entry   int     `json:"entry"` // 0 LoadFromFile/LoadFromURI, 1 LoadFromData, 2 LoadFromDataWithPath
+	Root    string  `json:"root"`
+	Files   []LFile `json:"files"`
+	Bytes   string  `json:"bytes,omitempty"`         // C20 only: raw root bytes (mutated); the store is then not modelled
+	NoModel bool    `json:"outside_model,omitempty"` // path-item references: judged against the specification only
 }
 type LObs struct {
 	Out   int               `json:"outcome"` // 0 loaded, 1 error, 2 panic, 3 timeout
